@@ -10,7 +10,8 @@ RULE = ("model-free oracle status in {0,103} (no panic, no signal, finishes) on:
         "(exhaustive product), extreme-integer grid x {+ - * / %} in plain and op-assign forms and as range bounds, indices and slice "
         "bounds (read and assignment), interpolated and plain literals over an alphabet with 2/3/4-byte characters, every byte-wise "
         "piece of strings with multi-byte characters x 24 consumers of strings (print, key, property name, slot, concatenation, "
-        "comparison, iteration, call, ...), and generated programs (with objects whose methods use `this`); non-trivial = distinct (stream tag, outcome class, "
+        "comparison, iteration, call, ...), targets / indices / bounds / right-hand sides that read or change the container being "
+        "updated (directly, through a function, through a method), long quoted text with multi-byte characters at every offset, and generated programs (with objects whose methods use `this`); non-trivial = distinct (stream tag, outcome class, "
         "first diagnostic text with numbers erased)")
 ASSUMPTIONS = ["values that contain themselves (cyclic) are generated, counted and excluded: rendering or comparing them has no "
                "finite result and the statement restricts to depths that fit the host stack",
@@ -102,9 +103,48 @@ def typefn_scripts():
     return out
 
 
+def selfread_scripts():
+    """targets, indices, bounds and right-hand sides that read (or change) the very container being read or updated, directly,
+    through a function and through a method: no lock may be held across an expression the program wrote"""
+    pre = ('buf := [3, 1, 2, 0]\no := {"k": "k", "buf": buf, "n": 2}\nfn n() {\n    return buf[0]\n}\nfn bump() {\n    buf[3] += 1\n    o.n += 1\n    return 1\n}\n'
+           'o.get = fn() { return this.n; }\n')
+    ints = ["buf[1]", "buf[0]", "n()", "bump()", "o.get()", "o.n", "buf[buf[1]]", "o.buf[1]"]
+    rhs = ["buf", "buf[0]", "[n()]", "[buf]", "o", "o.buf", "[bump(), buf[3]]", '"ab"']
+    out = []
+    for i in ints:
+        out += [pre + f"print(buf[{i}])\n", pre + f"print(o.buf[{i}])\n", pre + f'print("abcd"[{i}])\n']
+        for r in rhs:
+            out += [pre + f"buf[{i}] = {r}\nprint(buf)\n", pre + f"o.buf[{i}] = {r}\nprint(buf)\n"]
+        for r in ["buf[0]", "n()", "bump()", "o.get()", "buf", "[n()]"]:
+            out.append(pre + f"buf[{i}] += {r}\nprint(buf)\n")
+        for j in ints:
+            out += [pre + f"print(buf[{i}:{j}])\n", pre + f'print("abcd"[{i}:{j}])\n']
+            for r in rhs[:4] + rhs[5:]:
+                out.append(pre + f"buf[{i}:{j}] = {r}\nprint(buf)\n")
+    keys = ['o.k', 'o["k"]', '"" + o.k', "o.get2()"]
+    pre2 = pre + 'o.get2 = fn() { this.n += 1; return "k"; }\n'
+    for k in keys:
+        out += [pre2 + f"print(o[{k}])\n", pre2 + f"o[{k}] = o\nprint(o.n)\n", pre2 + f"o[{k}] += o.k\nprint(o.n)\n", pre2 + f"o[{k}] = o[{k}]\nprint(o.n)\n",
+                pre2 + f"{{{k}: x}} := o\nprint(x)\n", pre2 + f"{{{k}: o.n}} = o\nprint(o.n)\n", pre2 + f"print({{{k}: o, o..}}->type())\n"]
+    return out
+
+
+def longtext_scripts():
+    """program text that diagnostics quote (property names, slot text), long and with 2/3/4-byte characters at every offset"""
+    out = []
+    for n in range(0, 101):
+        for tail in ("é", "€😀", "ßz"):
+            k = "k" * n + tail
+            out += [f'o := {{}}\nprint(o["{k}"])\n', f'o := {{}}\no["{k}"] += 1\n', f'{{"{k}": x}} := {{}}\nprint(x)\n',
+                    f'print($"${{"{k}" +}}")\n', f'o := {{"{k}": 1}}\nprint(o["{k}z"])\n']
+    return out
+
+
 def run(ctx, model_ok):
     thorough = ctx.tier == "thorough"
     sets = []
+    sets.append(("selfread", selfread_scripts()))
+    sets.append(("longtext", longtext_scripts()))
     sets.append(("alias", [s for _, s in streams.alias_shapes()]))
     sets.append(("ints", int_scripts(streams.INT_GRID_FULL if thorough else streams.INT_GRID_QUICK)))
     sets.append(("strings", string_scripts(3 if thorough else 2)))
